@@ -1,6 +1,6 @@
 (* Extract/ExC08.v -- extraction for family c08 *)
 From Coq Require Import Extraction ExtrOcamlBasic ExtrOcamlString.
-From AT Require Import Num Vec Aff Farkas FM Equiv PTree Cells Abs Reduce.
+From AT Require Import Num Vec Aff Farkas FM Equiv PTree Cells Abs Reduce Cache Elim WfC OpsWf ReduceSweep.
 Extraction Blacklist List String Int.
 Extraction "model_c08.ml"
   qc_of_float qz qfrac qleb qltb qeqb Qcplus Qcmult Qcopp Qcminus Qcdiv
@@ -10,4 +10,5 @@ Extraction "model_c08.ml"
   eval term route compose apply_func wfb outsb size nterms
   pieces tree_equiv check_cex out_eqb
   aget aset alen akeys abs_at abs_tree
-  reduce reduce_in binb no_eq_sibb.
+  reduce reduce_in binb no_eq_sibb
+  cabs ctree_eqb erase sweep bfs_order cheight creduce c_idx_of.
